@@ -15,6 +15,8 @@ RULE = ("stream 'chunking': random sequences of non-empty frames (1 B..>64 KiB, 
         "and to integer literals harvested from the current source ±1) cut at random points incl. inside the 3-byte header, "
         "optionally cut short in the middle of a frame; stream 'exhaustive' (thorough): every composition of a stream of at most "
         "N bytes into frames x every partition into chunks; stream 'send': payload sizes around every boundary incl. 2^24-1, 2^24, 2^24+1; "
+        "stream 'closing': a frame whose handling closes the connection re-entrantly (DISCONNECTED reaches the layer while it is inside receive), more bytes of the dead "
+        "connection behind it, then a new connection: per chunk against the model's recvC; the new connection's frames are handed up exactly. "
         "stream 'reconnect': a connection lost k bytes into a frame (k anywhere from 1 to the frame's end - 1), DISCONNECTED delivered to the layer, then the frames of a new "
         "connection, both streams cut at random: everything complete before the loss and every frame of the new connection is delivered, nothing else; "
         "stream 'pipeline': 1-5 random stanza trees through the real coder layer and the real segment layer's send side, the written bytes cut at random points, "
@@ -112,6 +114,14 @@ def cases(chk):
         last = 3 + len(f1[-1]) // 2
         f2 = [bytes(r.randrange(256) for _ in range(_sizes(chk) % 300 + 1)).hex() for _i in range(r.randint(1, 3))]
         yield "reconnect", {"frames1": f1, "keep": r.randint(1, last - 1), "frames2": f2, "ncuts": r.choice([0, 1, 2, 4]), "cutseed": r.randrange(1 << 30)}
+    # a frame whose handling closes the connection re-entrantly (a stream error: the layers above ask for the disconnect while the frame is
+    # being handed up, the network layer closes at once), with more bytes of the dead connection behind it in the same chunk; then a new connection
+    for i in range(chk.scale(60, 1500)):
+        n1 = r.randint(1, 5)
+        f1 = [bytes([i % 250 + 1, j]) + bytes(r.randrange(256) for _ in range(r.randint(0, 40))) for j in range(n1)]
+        f2 = [bytes([0xEE, j]) + bytes(r.randrange(256) for _ in range(r.randint(0, 40))) for j in range(r.randint(1, 4))]
+        yield "closing", {"frames1": [f.hex() for f in f1], "closing": r.randrange(n1), "tail": r.choice([0, 0, 1, 2, 5]), "frames2": [f.hex() for f in f2],
+                          "ncuts": r.choice([0, 0, 1, 2, 4]), "cutseed": r.randrange(1 << 30)}
     for _ in range(chk.scale(120, 3000)):
         trees_ = [chk.gen.tree() for _i in range(r.randint(1, 5))]
         yield "pipeline", {"trees": [to_json(t) for t in trees_], "cutseed": r.randrange(1 << 30), "ncuts": r.choice([0, 1, 2, 3, 5, 9, 17])}
@@ -231,6 +241,58 @@ def run_case(chk, stream, case):
         if got != want:
             fails.append(oracle("C05:frames-differ-after-reconnect", "first connection: frames of %s bytes, lost %d bytes into the last one; second connection: frames of %s bytes: delivered sizes %s"
                                 % ([len(f) for f in fr1], case["keep"], [len(f) for f in fr2], [len(g) for g in got][:10])))
+    elif stream == "closing":
+        import random
+        from yowsup.layers import YowLayerEvent
+        from yowsup.layers.network import YowNetworkLayer
+        rr = random.Random(case["cutseed"])
+        fr1 = [bytes.fromhex(f) for f in case["frames1"]]
+        fr2 = [bytes.fromhex(f) for f in case["frames2"]]
+        k = case["closing"]
+        s1 = b"".join(be24(len(f)) + f for f in fr1)
+        if case["tail"]:
+            s1 += (be24(50) + bytes(49))[:2 + case["tail"]]            # ... and the beginning of one more frame of the dead connection
+        s2 = b"".join(be24(len(f)) + f for f in fr2)
+        layer, _stack, bottom, top = _mk(True)
+        chk.driver.ask("seg reset 1")
+        closed = []
+        real_receive = top.receive
+
+        def receive(data):
+            real_receive(data)
+            if bytes(data) == fr1[k] and not closed:
+                closed.append(1)
+                # what the network layer does when the layers above ask for the disconnect from inside this call
+                bottom.emitEvent(YowLayerEvent(YowNetworkLayer.EVENT_STATE_DISCONNECTED, reason="closed while a frame is handled"))
+        top.receive = receive
+
+        def cut(data):
+            cuts = sorted(set(rr.randint(1, max(1, len(data) - 1)) for _ in range(case["ncuts"]))) if len(data) > 1 else []
+            return _chunks(data, cuts)
+        got1 = []
+        for i, c in enumerate(cut(s1)):
+            before = len(top.received)
+            try:
+                layer.receive(bytes(c))
+                impl = "up:%s;buf:%s;closed:%s" % (",".join(hexs(bytes(g)) for g in top.received[before:]), hexs(getattr(layer, "_read_buffer", b"")), "true" if closed else "false")
+            except Exception as e:
+                impl = "raise:%s" % type(e).__name__
+            got1.extend(bytes(x) for x in top.received[before:])
+            model = chk.driver.ask("seg recvc %s %s" % (hexs(fr1[k]), hexs(c)))
+            if impl != model:
+                fails.append(corr("closing:recv", "chunk #%d %s of the closing connection: impl=%s model=%s" % (i, hexs(c)[:40], impl[:200], model[:200])))
+            if closed:
+                break               # the connection is closed: no further bytes arrive on it
+        chk.hit("closing:closed=%d" % len(closed), "closing:behind=%d" % min(len(fr1) - 1 - k + (1 if case["tail"] else 0), 3))
+        chk.driver.ask("seg reset 1")
+        got2 = _feed(chk, layer, top, cut(s2), fails, "closing")
+        if closed and not (got1[:k + 1] == fr1[:k + 1] and got1 == fr1[:len(got1)]):
+            # (frames behind the closing one may or may not still come up — they were sent; what comes up must be the peer's frames, in order)
+            fails.append(oracle("C05:frames-differ-at-close", "frames of %s bytes, handling #%d closes the connection: handed up %s" % ([len(f) for f in fr1], k, [len(g) for g in got1])))
+        if got2 != fr2:
+            fails.append(oracle("C05:frames-differ-after-reconnect", "first connection: frames of %s bytes (+%d bytes of a further one), closed while frame #%d was being handled; second "
+                                "connection: frames of %s bytes: handed up %s" % ([len(f) for f in fr1], (2 + case["tail"]) if case["tail"] else 0, k,
+                                                                               [len(f) for f in fr2], [g[:8].hex() + ".." for g in got2][:6])))
     elif stream == "pipeline":
         import random
         from yowsup.layers.coder import YowCoderLayer
